@@ -21,7 +21,7 @@ func VerifC03Release() {
 	hb := verifrt.Param("height_bits", 8)
 	nb := verifrt.Param("nonce_bits", 4)
 	h := verifrt.I64("height")
-	verifrt.Assume(h >= 1 && h < int64(1)<<uint(hb))
+	verifrt.Assume(verifrt.All(h >= 1, h < int64(1)<<uint(hb)))
 	e := verifenv.NewLedgerEnvAt(h, no)
 	e.RegisterAsset(verifenv.LSTAddrHex, 18, sdkmath.ZeroInt())
 	l := verifenv.NewPlainLedger(e, ns, no, verifenv.LSTAssetID(), verifrt.Param("amount_bits", 120))
@@ -80,22 +80,20 @@ func VerifC03Release() {
 		switch {
 		case due && r.Hold == 0:
 			verifrt.Assert(!live, "a due, unheld record is released at the end of its block")
-			verifrt.Assert(!e.PendingIndexHas(r.Record.CompleteBlockNumber, r.Record.LzTxNonce, r.Key) &&
-				!e.StakerIndexHas(r.Record.StakerID, r.Record.AssetID, r.Record.LzTxNonce, r.Key), "released record removed from every index")
+			verifrt.Assert(verifrt.All(!e.PendingIndexHas(r.Record.CompleteBlockNumber, r.Record.LzTxNonce, r.Key), !e.StakerIndexHas(r.Record.StakerID, r.Record.AssetID, r.Record.LzTxNonce, r.Key)), "released record removed from every index")
 			expW[r.S] = expW[r.S].Add(r.Record.ActualCompletedAmount)
 			expP[r.S] = expP[r.S].Sub(r.Record.Amount)
 			expOP[r.O] = expOP[r.O].Sub(r.Record.Amount)
 		case due && r.Hold > 0:
 			verifrt.Assert(live, "a held record is not released")
 			if live {
-				verifrt.Assert(cur.CompleteBlockNumber == hh+1 && cur.Amount.Equal(r.Record.Amount) &&
-					cur.ActualCompletedAmount.Equal(r.Record.ActualCompletedAmount) && cur.StakerID == r.Record.StakerID, "a held record is re-queued intact for the next block")
-				verifrt.Assert(e.PendingIndexHas(hh+1, r.Record.LzTxNonce, r.Key) && e.StakerIndexHas(r.Record.StakerID, r.Record.AssetID, r.Record.LzTxNonce, r.Key), "re-queued record reachable through every index")
+				verifrt.Assert(verifrt.All(cur.CompleteBlockNumber == hh+1, cur.Amount.Equal(r.Record.Amount), cur.ActualCompletedAmount.Equal(r.Record.ActualCompletedAmount), cur.StakerID == r.Record.StakerID), "a held record is re-queued intact for the next block")
+				verifrt.Assert(verifrt.All(e.PendingIndexHas(hh+1, r.Record.LzTxNonce, r.Key), e.StakerIndexHas(r.Record.StakerID, r.Record.AssetID, r.Record.LzTxNonce, r.Key)), "re-queued record reachable through every index")
 			}
 		default:
 			verifrt.Assert(live, "a record is never released before its completion height")
 			if live {
-				verifrt.Assert(cur.CompleteBlockNumber == r.Record.CompleteBlockNumber && cur.Amount.Equal(r.Record.Amount) && cur.ActualCompletedAmount.Equal(r.Record.ActualCompletedAmount), "a record that is not due is untouched")
+				verifrt.Assert(verifrt.All(cur.CompleteBlockNumber == r.Record.CompleteBlockNumber, cur.Amount.Equal(r.Record.Amount), cur.ActualCompletedAmount.Equal(r.Record.ActualCompletedAmount)), "a record that is not due is untouched")
 				verifrt.Assert(e.PendingIndexHas(r.Record.CompleteBlockNumber, r.Record.LzTxNonce, r.Key), "a record that is not due stays in the pending index")
 			}
 		}
@@ -106,7 +104,7 @@ func VerifC03Release() {
 	}
 	for o := 0; o < no; o++ {
 		verifrt.Assert(post.PoolPending[o].Equal(expOP[o]), "operator pending figure drops by the released amounts")
-		verifrt.Assert(post.PoolAmount[o].Equal(pre.PoolAmount[o]) && post.PoolShare[o].Equal(pre.PoolShare[o]), "pools untouched by completion")
+		verifrt.Assert(verifrt.All(post.PoolAmount[o].Equal(pre.PoolAmount[o]), post.PoolShare[o].Equal(pre.PoolShare[o])), "pools untouched by completion")
 	}
 	l.AssertInv(post, l.Assoc, "after EndBlock")
 }
